@@ -418,7 +418,9 @@ def formula_text(F, args, row, by_ref):
             parts.append(c)
         else:
             parts.append(lib.excel_literal(a))
-    return f'={F}({",".join(parts)})', cells
+    # (Excel stores the newer functions with a prefix in the file: =_xlfn.CEILING.MATH(...))
+    name = f'_xlfn.{F}' if row % 3 == 0 and '.' in F else F
+    return f'={name}({",".join(parts)})', cells
 
 
 def formula_batch(ctx, batch, by_ref=None):
